@@ -42,7 +42,7 @@ class Cmp:
 
     def add(self, clause, where, a=None, b=None):
         if len(self.diffs) < self.max_diffs:
-            self.diffs.append({"clause": clause, "where": where, "a": _short(a), "b": _short(b)})
+            self.diffs.append({"clause": clause, "where": where, "a": _short(a), "b": _short(b), "_a": a, "_b": b})
 
     # ---------------------------------------------------------------- scalars
     def scalar(self, a, b, where, clause="value"):
@@ -233,8 +233,16 @@ class Cmp:
             if dtypes and str(sa.dtype) != str(sb.dtype):
                 self.add("dtype", "%s.%s.dtype" % (where, c), sa.dtype, sb.dtype)
                 ok = False
+            # fast path: numeric / bool numpy columns that are elementwise identical (NaN == NaN)
+            if cell_filter is None and sa.dtype == sb.dtype and sa.dtype.kind in "fiub" and not isinstance(sa.dtype, pd.api.extensions.ExtensionDtype):
+                xa, xb = sa.values, sb.values
+                same = (xa == xb)
+                if sa.dtype.kind == "f":
+                    same = same | (np.isnan(xa) & np.isnan(xb))
+                if bool(same.all()):
+                    self.cells += len(xa)
+                    continue
             va, vb = sa.tolist(), sb.tolist()
-            # fast path for float columns
             for i, (x, y) in enumerate(zip(va, vb)):
                 if cell_filter is not None and not cell_filter(c, x):
                     continue
